@@ -216,14 +216,28 @@ def wire_name(name):
     for i, ch in enumerate(v):
         if i > 0 and ch.isupper():
             out.append("_")
-        out.append(ch.lower())
+        # serde: `to_ascii_lowercase` - a non-ASCII capital stays a capital on the wire
+        out.append(ch.lower() if ch.isascii() else ch)
     return "".join(out)
+
+
+WORDS_NON_ASCII = ["über", "étage", "öffnen", "état", "żółw"]
+
+
+def arg_key(a):
+    """JSON key of an argument: its name, without the raw-identifier prefix."""
+    n = a["name"] if isinstance(a, dict) else a
+    return n[2:] if n.startswith("r#") else n
 
 
 def extended_name(rng):
     """A method name outside the C01 domain (still a valid Rust identifier)."""
     words = [rng.choice(WORDS_SAFE + WORDS_DIGIT + WORDS_SINGLE) for _ in range(rng.choice([1, 2, 2, 3]))]
     c = rng.random()
+    if c < 0.2:
+        # a word starting with a non-ASCII letter that has an upper-case form
+        words.insert(rng.randrange(0, len(words) + 1), rng.choice(WORDS_NON_ASCII))
+        return "_".join(words)
     if c < 0.3:
         return "_" + "_".join(words)
     if c < 0.55:
@@ -236,11 +250,17 @@ def extended_name(rng):
 
 ARG_WORDS = ["amount", "to", "from", "owner", "id", "a", "b", "x", "y", "value", "key", "flag", "n",
              "denom", "who", "memo", "arg1", "arg2", "v2", "_unused", "_x", "data_in", "items", "limit0"]
+RAW_ARGS = ["r#type", "r#in", "r#match", "r#ref"]
 
 
 def arg_name(rng, taken):
     for _ in range(100):
         n = rng.choice(ARG_WORDS)
+        if rng.random() < 0.06:
+            n = rng.choice(RAW_ARGS)
+            if n not in taken:
+                return n
+            continue
         if rng.random() < 0.2:
             n = n + "_" + rng.choice(ARG_WORDS).lstrip("_")
         if n not in taken and n not in RUST_RESERVED:
